@@ -168,8 +168,29 @@ def install(sched, root, cropping):
             out = os.listdir(p)
             ev['obs'] = sorted(out); return out
 
+        # every other way of enumerating a directory is the same step as listdir (the names present are what is observed)
+        def scandir(self, p='.'):
+            ev = sched.step({'op': 'listdir', 'p': rel(p)}, shared(str(p) + '/'))
+            out = list(os.scandir(p))
+            ev['obs'] = sorted(e.name for e in out)
+
+            class _It(list):
+                def __enter__(s2): return s2
+                def __exit__(s2, *a): return False
+                def close(s2): pass
+            return _It(out)
+
+        def walk(self, top, *a, **k):
+            ev = sched.step({'op': 'listdir', 'p': rel(top)}, shared(str(top) + '/'))
+            out = list(os.walk(top, *a, **k))
+            ev['obs'] = sorted(n for _, ds, fs in out[:1] for n in ds + fs)
+            return iter(out)
+
     class GlobProxy:
         def __getattr__(self, k): return getattr(_glob, k)
+
+        def iglob(self, pat, *a, **k):
+            return iter(self.glob(pat, *a, **k))
 
         def glob(self, pat, *a, **k):
             ev = sched.step({'op': 'list', 'p': rel(pat)}, shared(pat))
